@@ -234,3 +234,45 @@ def match_table(F, body):
       if dv not in covered:
         out[name] = c
   return out
+
+
+class Relabel:
+  """Run another property's rule code under this property's rule id: obligations, anchors and floors are recorded as `rid`
+  (optionally only those that `keep(rule, instance)` accepts); rule texts of the borrowed module are not re-declared."""
+
+  def __init__(self, ctx, rid, keep=None):
+    self._c = ctx
+    self._rid = rid
+    self._keep = keep or (lambda rule, desc: True)
+
+  def __getattr__(self, k):
+    return getattr(self._c, k)
+
+  def ob(self, rule, fn, desc, ok, msg='', where=None, nontrivial=True, detail=None):
+    if self._keep(rule, desc):
+      return self._c.ob(self._rid, fn, desc, ok, msg, where, nontrivial, detail)
+    return bool(ok)
+
+  def anchor(self, rule, what, found, fn=''):
+    if self._keep(rule, what):
+      return self._c.anchor(self._rid, what, found, fn)
+    return bool(found)
+
+  def body(self, rule, npath):
+    b = self._c.facts.body(npath)
+    if self._keep(rule, npath):
+      self._c.anchor(self._rid, npath, b is not None, npath)
+    if b is not None:
+      self._c.functions.add(b.n)
+    return b
+
+  def floor(self, rule, what, count, floor):
+    if self._keep(rule, what):
+      return self._c.floor(self._rid, what, count, floor)
+    return count >= floor
+
+  def rule(self, *a, **k):
+    pass
+
+  def sites(self, n):
+    pass
